@@ -23,6 +23,7 @@ class P:
     kids: List[Any] = field(default_factory=list)
     vals: List[Any] = field(default_factory=list)
     s: Any = frozenset()  # a value of a partially ordered type (sets under inclusion)
+    t: Any = ()  # a sequence value (ordered lexicographically)
 
     def m(self):
         return self.a + self.b
